@@ -409,10 +409,19 @@ pub fn queries_plus(tier: Tier) -> Vec<GenQuery> {
 pub fn queries_plus_depth(tier: Tier, depth: usize) -> Vec<GenQuery> {
     let mut v = queries(tier);
     let mut seen: std::collections::BTreeSet<String> = v.iter().map(|g| g.sql.clone()).collect();
-    for mut g in composed(depth) {
+    let mut terms = composed(depth);
+    if tier == Tier::Quick && depth == 2 {
+        // quick: plus the depth-3 joins of a set operation (key + column rows) with a base table, on <= 3 rows
+        terms.extend(composed(3).into_iter().filter(|g| g.term.as_ref().map_or(false, |t| t.starts_with("J.") && t.contains("(S."))).map(|mut g| {
+            g.max_total_rows = 3;
+            g.tags.push("quick-depth-3");
+            g
+        }));
+    }
+    for mut g in terms {
         if seen.insert(g.sql.clone()) {
             // quick: nested terms on the instances with <= 2 rows in total
-            if tier == Tier::Quick && !g.subqueries.is_empty() {
+            if tier == Tier::Quick && !g.subqueries.is_empty() && !g.tags.contains(&"quick-depth-3") {
                 g.max_total_rows = 2;
             }
             // thorough: nested terms on the instances with <= 3 rows in total (depth-1 terms: as the hand-written list)
